@@ -87,6 +87,30 @@ def types_unit(tier):
     for n, (name, sig, dparams, cparams, cargs) in enumerate(progs):
         u.add("must-compile|%s" % name, "a method %s with definition (%s) and a forwarding caller compiles" % (sig, dparams),
               "namespace mc%d { struct key; using M = method<key, %s>; int def(%s) { return 1; } M::add_function<def> reg; int call(%s) { return M::fn(%s); } }" % (n, sig, dparams, cparams, cargs), separate=True)
+    if tier == "thorough":
+        # every ordered pair of virtual parameter kinds, with a non-virtual move-only parameter between them, each with
+        # a different inheritance shape of the definition's class
+        VK = {
+            "ref": ("virtual_<A&>", "{D}&", "A& {n}", "{n}"),
+            "cref": ("virtual_<const A&>", "const {D}&", "const A& {n}", "{n}"),
+            "rref": ("virtual_<A&&>", "{D}&&", "A&& {n}", "std::move({n})"),
+            "ptr": ("virtual_<A*>", "{D}*", "A* {n}", "{n}"),
+            "shared": ("virtual_<std::shared_ptr<A>>", "std::shared_ptr<{D}>", "std::shared_ptr<A> {n}", "{n}"),
+            "cshared": ("virtual_<const std::shared_ptr<A>&>", "const std::shared_ptr<{D}>&", "const std::shared_ptr<A>& {n}", "{n}"),
+            "vptr": ("virtual_ptr<A>", "virtual_ptr<{D}>", "virtual_ptr<A> {n}", "{n}"),
+            "cvptr": ("const virtual_ptr<A>&", "const virtual_ptr<{D}>&", "const virtual_ptr<A>& {n}", "{n}"),
+            "vsptr": ("virtual_ptr<std::shared_ptr<A>>", "virtual_ptr<std::shared_ptr<{D}>>", "virtual_ptr<std::shared_ptr<A>> {n}", "{n}"),
+            "cvsptr": ("const virtual_ptr<std::shared_ptr<A>>&", "const virtual_ptr<std::shared_ptr<{D}>>&", "const virtual_ptr<std::shared_ptr<A>>& {n}", "{n}"),
+        }
+        shapes = ["B", "D2", "VB", "E", "F"]
+        k = 0
+        for a, (ma, da, ca, xa) in VK.items():
+            for b, (mb, db, cb, xb) in VK.items():
+                Da, Db = shapes[k % 5], shapes[(k + 2) % 5]
+                k += 1
+                u.add("must-compile|pair|%s|%s" % (a, b), "a method (%s, move-only, %s) with definition classes %s / %s and a forwarding caller compiles" % (a, b, Da, Db),
+                      "namespace mp%d { struct key; using M = method<key, int(%s, Mv, %s)>; int def(%s, Mv, %s) { return 1; } M::add_function<def> reg; int call(%s, Mv m, %s) { return M::fn(%s, std::move(m), %s); } }" % (
+                          k, ma, mb, da.format(D=Da), db.format(D=Db), ca.format(n="x"), cb.format(n="y"), xa.format(n="x"), xb.format(n="y")), separate=True)
     # programs that must not compile (shared_ptr by value <-> by const reference mix)
     u.add("must-fail|shared-by-value-to-cref", "casting a by-value shared_ptr parameter to a `const shared_ptr<D>&` definition parameter is rejected",
           "auto mf1 = &detail::virtual_traits<P, std::shared_ptr<A>>::template cast<const std::shared_ptr<B>&>;", must_fail="cannot cast from 'const shared_ptr<base>&' to 'shared_ptr<derived>'")
